@@ -1,9 +1,11 @@
 (* C02 forward dynamics inverts inverse dynamics.  Proved here: the matrix-based (Lagrangian) route returns
    the unique qdd with H qdd + C = tau, where C is inverse dynamics at zero acceleration and H the CRBA matrix,
-   for every linear-solver choice that returns a solution of the system (uniqueness).  That the articulated-body
-   routine and M^-1 (tau - N) reproduce tau through InverseDynamics is decided by the residual oracle. *)
+   for every linear-solver choice that returns a solution of the system (uniqueness); and that acceleration put back
+   into InverseDynamics (from any well-formed workspace) returns tau component by component -- forward dynamics by
+   the Lagrangian route inverts inverse dynamics (f_ext = NULL).  That the articulated-body routine and
+   M^-1 (tau - N) do the same is decided by the residual oracle. *)
 From Coq Require Import List.
-From RV Require Import Scalar Laws ListArr LinDef LinThm ModelDef DynDef ConsDef ConsThm DimThm.
+From RV Require Import Scalar Laws LinAlg3 Spatial ListArr LinDef LinThm ModelDef JointDef KinDef DynDef ConsDef ConsThm DimThm C14Thm KinThm C04Thm FdlThm.
 Import ListNotations.
 Section P.
   Context {T : Type} (O : Ops T) {FL : FieldLaws O}.
@@ -26,6 +28,26 @@ Section P.
     vadd O (mvmul O Hm qdd) C = tau.
   Proof. exact (fd_lagrangian_solves_sized O oeqb_spec M w q qd tau fext w' qdd Hm C). Qed.
 End P.
+Section P2.
+  Context {T : Type} (O : Ops T) {FL : FieldLaws O} {TL : TrigLaws O}.
+  Hypothesis oeqb_spec : forall x y : T, oeqb O x y = true <-> x = y.
+  Theorem C02_lagrangian_forward_dynamics_inverts_inverse_dynamics
+    (M : @Model T) q qd (w0 w1 : @WS T) (tau : list T) w' qdd H C : WF M ->
+    (forall i j, 0 < i < nbodies M -> 0 < j < nbodies M -> i <> j ->
+       is_custom (jkind (getJ M i)) = true -> is_custom (jkind (getJ M j)) = true -> jcust (getJ M i) <> jcust (getJ M j)) ->
+    (forall i u, 0 < i < nbodies M -> bvirtual (getbody O M i) = true -> rbi_mulv O (getI O M i) u = svzero O) ->
+    jq (getJ M 0) + jdof (getJ M 0) = 0 ->
+    (forall i, 0 < i < nbodies M -> joint_wf O M q i) -> o2 O <> o0 O ->
+    Good O M w0 -> Good O M w1 -> length tau = dof_count M ->
+    forward_dynamics_lagrangian O M w0 q qd tau None = (w', Some qdd, H, C) ->
+    forall r, r < dof_count M ->
+      nth r (snd (inverse_dynamics O M w1 q qd qdd (vzeros (o0 O) (dof_count M)) None)) (o0 O) = nth r tau (o0 O).
+  Proof.
+    intros W Cj V R J N2 G0 G1 L E.
+    exact (fdl_inverts_inverse_dynamics O oeqb_spec M q qd W Cj V R J N2 w0 w1 tau w' qdd H C G0 G1 L E).
+  Qed.
+End P2.
 Print Assumptions C02_lagrangian_route_solves_equation_of_motion.
 Print Assumptions C02_linear_solvers_agree.
 Print Assumptions C02_lagrangian_route_solves_equation_of_motion_any_model.
+Print Assumptions C02_lagrangian_forward_dynamics_inverts_inverse_dynamics.
